@@ -818,6 +818,20 @@ class Processor:
                 seen_refs.add(ref_id)
             unique_nodes.append((gathered_nc, ref))
 
+        # Refuse before anything has been deleted; the document root may
+        # be only one of several targets (e.g. gathered by a Collector).
+        for (check_nc, _) in unique_nodes:
+            if not isinstance(
+                check_nc.parent,
+                (CommentedMap, dict, CommentedSeq, list, CommentedSet, set)
+            ):
+                raise NoDocumentYAMLPathException(
+                    "Refusing to delete the entire document!  Ensure the"
+                    " source document is YAML, JSON, or compatible and the"
+                    " target nodes do not include the document root.",
+                    str(check_nc.path)
+                )
+
         # Matches need not arrive in document order (e.g. from Collectors), so
         # delete the highest Array indexes first lest an earlier deletion
         # shift the elements still to be deleted.
